@@ -538,6 +538,7 @@ def run_case(mod, name, cfgs, wire, kessoku):
             def calls(r):
                 return sorted((e["fn"], tuple(e.get("args") or [])) for e in r["events"] if e["kind"] == "enter")
             if s["kind"] == "free":
+                rec.setdefault("values", {})[nm] = [w["value"] if not w["err"] else None, kk["value"] if not kk["err"] else None]
                 if w["value"] != ref["result"]:
                     pi["problems"].append("HARNESS: wire's result %s differs from the reference %s" % (w["value"], ref["result"]))
                 if kk["value"] != w["value"] or kk["err"] != w["err"]:
@@ -687,3 +688,138 @@ def known_runs():
             rck, ok, ek = vlib.run(["go", "run", "."], cwd=kdir, env=env, timeout=300)
             out[kid] = dict(reproduced=(ew.strip() != ek.strip()), detail="wire's injector yields %r, the migrated injector yields %r" % (ew.strip()[-40:], ek.strip()[-40:]))
     return out
+
+
+# ------------------------------------------------------------------ Coq correspondence (coq/Wire.v)
+
+class TermParse(Exception):
+    pass
+
+
+def parse_term(s, cfg, tid):
+    """observed result string -> Coq term of Wire.v"""
+    P = cfg["prefix"]
+    pos = [0]
+    def peek(k=1):
+        return s[pos[0]:pos[0] + k]
+    def ident():
+        m = re.match(r"[A-Za-z0-9_.*:\[\]]+", s[pos[0]:])
+        if not m:
+            raise TermParse("identifier expected at %d in %s" % (pos[0], s))
+        pos[0] += len(m.group(0))
+        return m.group(0)
+    def args(close):
+        out = []
+        if peek() == close:
+            pos[0] += 1
+            return out
+        while True:
+            out.append(term())
+            c = peek()
+            pos[0] += 1
+            if c == close:
+                return out
+            if c != ",":
+                raise TermParse("',' expected at %d in %s" % (pos[0], s))
+    def term():
+        name = ident()
+        # an identifier may have swallowed ".FldK" suffixes of an A:/V: leaf - not produced by this generator
+        if name.startswith("A:"):
+            t = "TArg %d%%N" % tid(name[2:])
+        elif name.startswith("V:"):
+            t = "TVal %d" % int(name[2 + len(P) + 1:])
+        elif peek() == "(":
+            pos[0] += 1
+            a = args(")")
+            if peek(2) != "#0":
+                raise TermParse("#0 expected in %s" % s)
+            pos[0] += 2
+            if name.endswith("Label"):
+                node = cfg["label"]
+            else:
+                node = int(name.split("T")[-1])
+            t = "TFn %d [%s]" % (node, "; ".join(a))
+        elif peek() == "{":
+            pos[0] += 1
+            a = args("}")
+            t = "TStruct %d%%N [%s]" % (tid("*" + name), "; ".join(a))
+        else:
+            raise TermParse("unexpected term %s in %s" % (name, s))
+        while peek(4) == ".Fld":
+            pos[0] += 4
+            m = re.match(r"\d+", s[pos[0]:])
+            pos[0] += len(m.group(0))
+            t = "TField (%s) %s" % (t, m.group(0))
+        return t
+    r = term()
+    if pos[0] != len(s):
+        raise TermParse("trailing input in %s" % s)
+    return r
+
+
+def coq_cfg(cfg):
+    """abstract configuration -> (welem list term, given list, requested type id, type-id function)"""
+    P = cfg["prefix"]
+    tt = {}
+    def tid(t):
+        t = re.sub(r"^\*?[ab]config\.", lambda m: m.group(0), t)
+        if t not in tt:
+            tt[t] = len(tt) + 1
+        return tt[t]
+    ext = {int(a): b for a, b in cfg.get("ext", {}).items()}
+    def out_type(i):
+        if cfg.get("label") == i:
+            return "*sink.%sLabel" % P
+        if i in ext:
+            return "*%sconfig.%sT%d" % (ext[i][0], P, i)
+        return "*%sT%d" % (P, i)
+    def params(i):
+        ps = []
+        for j in cfg["deps"][i] if i in cfg["deps"] else cfg["deps"][str(i)]:
+            ps += cfg["view"]["%d,%d" % (i, j)]
+        ad = cfg["argdeps"][i] if i in cfg["argdeps"] else cfg["argdeps"][str(i)]
+        ps += ["%sA%d" % (P, a) for a in ad]
+        return ps
+    els = []
+    kinds = {int(k): v for k, v in cfg["kinds"].items()}
+    for i in range(cfg["n"]):
+        k = kinds[i]
+        if k in ("fn", "fields"):
+            els.append("WProv %d [%s] %d%%N" % (i, "; ".join("%d%%N" % tid(t) for t in params(i)), tid(out_type(i))))
+            if k == "fn" and i in cfg["binds"] and i in cfg["used_iface"]:
+                ifn = ("sink." if i in cfg.get("gamma_iface", []) else "") + "%sIF%d" % (P, i)
+                els.append("WBind %d%%N %d%%N" % (tid(ifn), tid(out_type(i))))
+            if k == "fields":
+                uf = cfg["used_fields"].get(i) or cfg["used_fields"].get(str(i)) or []
+                els.append("WFieldsOf %d%%N [%s]" % (tid(out_type(i)), "; ".join("(%d, %d%%N)" % (f, tid("*%sF%d_%d" % (P, i, f))) for f in uf)))
+        elif k == "value":
+            els.append("WValue %d %d%%N" % (i, tid(out_type(i))))
+        elif k == "ivalue":
+            els.append("WIValue %d %d%%N %d%%N" % (i, tid("%sIF%d" % (P, i)), tid(out_type(i))))
+        elif k == "struct":
+            els.append("WStruct %d%%N [%s]" % (tid(out_type(i)), "; ".join("%d%%N" % tid(t) for t in params(i))))
+    given = [tid("%sA%d" % (P, a)) for a in cfg["args"]]
+    return "[" + "; ".join(els) + "]", given, tid(out_type(0)), tid
+
+
+def coq_cases(W):
+    """Gallina cases for Wire.wire_mismatches from the records of a migration stage"""
+    cases = []
+    meta = []
+    for r in W["records"]:
+        if r["stage"] != "ran":
+            continue
+        for c in r["cfgs"]:
+            vals = r.get("values", {}).get(c["name"])
+            if not vals or not vals[0] or not vals[1]:
+                continue
+            try:
+                cfg_s, given, req, tid = coq_cfg(c)
+                tw = parse_term(vals[0], c, tid)
+                tk = parse_term(vals[1], c, tid)
+            except (TermParse, KeyError, ValueError) as ex:
+                meta.append((None, r["name"], c["name"], "cannot express: %r" % ex))
+                continue
+            cases.append("(%d, (%s, [%s], %d%%N, %s, %s))" % (len(cases), cfg_s, "; ".join("%d%%N" % g for g in given), req, tw, tk))
+            meta.append((len(cases) - 1, r["name"], c["name"], None))
+    return cases, meta
